@@ -34,11 +34,13 @@ type c20Target struct {
 	readded  bool
 	total    int
 	kept     int
+	keptSeen int // kept count of the last successful probe under the rules then in force
 }
 
 type probeRec struct {
 	p        *Probe
 	released bool
+	dropRule bool // the job's metric relabel rule in force when the probe started
 	queuedAfterRemoval bool
 	outcome  string
 	at       time.Time
@@ -89,7 +91,8 @@ func c20Bubble(tp *core.Tape, e *core.Env) (hist []string) {
 		return o.Result
 	}
 	jobs := []string{"ja"}
-	do("reload", func() interface{} { return w.Cfg.ReloadFromRaw([]byte(ConfigText(jobs))) })
+	dropRule := true // whether the job's metric relabel rule (drop drop_.*) is in force
+	do("reload", func() interface{} { return w.Cfg.ReloadFromRaw([]byte(ConfigTextRule(jobs, dropRule))) })
 
 	n := 1 + tp.Weighted("targets", 3, 3, 2, 1, 1)
 	var ts []*c20Target
@@ -224,7 +227,7 @@ func c20Bubble(tp *core.Tape, e *core.Env) (hist []string) {
 			if suspicious && t.credits > 0 {
 				// the queued probe of a removed incarnation
 				t.credits--
-				t.old = append(t.old, &probeRec{p: p, at: p.At})
+				t.old = append(t.old, &probeRec{p: p, at: p.At, dropRule: dropRule})
 				logf("probe of %s starts (owed to a removed incarnation)", t.addr)
 				continue
 			}
@@ -249,7 +252,7 @@ func c20Bubble(tp *core.Tape, e *core.Env) (hist []string) {
 					e.Violate("probe-after-removal", "", "target %s left discovery at %s but was probed %d more times", t.addr, t.removedAt.Sub(start), cnt+1)
 				}
 			}
-			t.probes = append(t.probes, &probeRec{p: p, at: p.At, queuedAfterRemoval: !t.inDisc})
+			t.probes = append(t.probes, &probeRec{p: p, at: p.At, queuedAfterRemoval: !t.inDisc, dropRule: dropRule})
 			logf("probe #%d of %s starts", len(t.probes), t.addr)
 		}
 	}
@@ -302,6 +305,13 @@ func c20Bubble(tp *core.Tape, e *core.Env) (hist []string) {
 		// same fake instant would wake in an order the Go runtime picks
 		sched.Sleep(time.Millisecond)
 		w.Settle()
+		if outcome == "" {
+			// the estimate is what the rules in force at the time of the probe keep
+			t.keptSeen = t.total
+			if rec == nil || rec.dropRule {
+				t.keptSeen = t.kept
+			}
+		}
 		if outcome == "" && cur {
 			t.success = true
 			e.Probe("probe_succeeded")
@@ -349,9 +359,14 @@ func c20Bubble(tp *core.Tape, e *core.Env) (hist []string) {
 				member[t.addr] = true
 				forward()
 			}
-		case 4: // reload keeping the job
-			do("reload", func() interface{} { return w.Cfg.ReloadFromRaw([]byte(ConfigText(jobs))) })
-			logf("reload keeping ja")
+		case 4: // reload keeping the job, possibly changing its metric relabel rules in place
+			if tp.Bool("reload_changes_rules", 1, 2) {
+				dropRule = !dropRule
+				e.Probe("reload_changes_metric_relabel")
+			}
+			dr := dropRule
+			do("reload", func() interface{} { return w.Cfg.ReloadFromRaw([]byte(ConfigTextRule(jobs, dr))) })
+			logf("reload keeping ja (drop rule %v)", dropRule)
 			e.Probe("reload_keeps_job")
 		case 5:
 			if len(yields) > 0 {
@@ -388,13 +403,13 @@ func c20Bubble(tp *core.Tape, e *core.Env) (hist []string) {
 			// what the coordinator would be told decides; which incarnation of a re-discovered
 			// target a probe belonged to cannot be told apart at the transport
 			r := get(t)
-			good := r != nil && r.Health == pscrape.HealthGood && r.Series == int64(t.kept) && r.TotalSeries == int64(t.total)
+			good := r != nil && r.Health == pscrape.HealthGood && r.Series == int64(t.keptSeen) && r.TotalSeries == int64(t.total)
 			switch {
 			case good:
 			case !t.success && (r == nil || r.Health != pscrape.HealthGood):
 				e.Violate("never-explored", "class="+cls, "target %s stayed discovered and was asked for at %s, but after %d failed probes and a quiet phase of 150 s it still has no successful probe (probes: %d)", t.addr, t.askedAt.Sub(start), t.nFailed, len(t.probes))
 			default:
-				e.Violate("estimate", "class="+cls, "target %s: successful probe had %d samples (%d kept) but Get returns %+v", t.addr, t.total, t.kept, r)
+				e.Violate("estimate", "class="+cls, "target %s: successful probe had %d samples (%d kept under the rules in force) but Get returns %+v", t.addr, t.total, t.keptSeen, r)
 			}
 		}
 		var pat []string
